@@ -7,6 +7,13 @@ loop-for-loop Lean model (lean/PfVerif/Model/C09_ihu.lean).  `spec` failures: an
 lean/PfVerif/Props/C09_ihu.lean say the stage preserves is lost on the implementation's output, the implementation raises,
 or it indexes an array with the missing value -1.  `model` failures: implementation != model.
 
+Fourth stage (lean/PfVerif/Props/C09_ihuTotal.lean): the driver evaluates the hypotheses of the new theorems on the
+inputs of every stage call (hyp.*: EnvOK, ReachesPit, upstream area of missing pixels <= minupa, flagged cells have outlet
+pixels) and their conclusions on the IMPLEMENTATION's arrays: `linksok` (valid iff outlet, links in range and 8-neighbour,
+outlet pixels valid) is preserved by every stage and holds for the result of ihu; `streams` stays in step with the outlet
+pixels through ihu_optimize_rivlen / ihu_minimize_error and the outlets stay pairwise distinct for every pit_out_of_cell;
+the model never runs out of fuel.
+
 np.argsort (default kind) does not fix the order of ties; the permutations the implementation actually used are
 recorded by an observing stand-in for the module-level `np` of pyflwdir.upscale and handed to the model, which checks
 that each of them is a sorting permutation of the keys it computed itself (`sort.bad` = 0)."""
@@ -111,7 +118,7 @@ def sorts_args(log):
 
 
 # ----------------------------------------------------------------------------------------
-INV = ["sizes", "owncell", "outletpix", "orpit", "range", "validiff", "d8"]
+INV = ["sizes", "owncell", "outletpix", "orpit", "range", "validiff", "d8", "outvalid", "linksok"]
 # invariants each stage is PROVED (Props/C09_ihu.lean: relocate_outlets_checked / relocate_links_size,
 # optimize_rivlen_outlets_exit, minimize_error_outlets, minimize_error_outlets_exit + checks_of_outletOf /
 # chkOutletOrPit_iff) to preserve; a loss on the implementation's output is a spec failure
@@ -119,7 +126,11 @@ PRESERVED = {"relocate": ["sizes", "owncell", "outletpix"],
              "rivlen": ["sizes", "owncell", "outletpix"],
              "minerr": ["sizes", "orpit"],
              "minerr0": ["sizes", "owncell", "outletpix", "orpit"]}
-# invariants that are only OBSERVED (no theorem): counted in the feature histogram when lost
+# fourth stage (Props/C09_ihuTotal.lean: relocate_outlets_links, optimize_rivlen_links, minimize_error_links): under the
+# hypotheses hyp.* (EnvOK, ReachesPit, upstream area of missing pixels <= minupa, flagged cells have outlet pixels) every
+# stage preserves `linksok` = sizes & range & validiff & d8 & outvalid, and the model never runs out of fuel
+# (relocate_outlets_total, optimize_rivlen_total, minimize_error_total).  The single bits are still counted when lost.
+LINKS = "linksok"
 OBSERVED = ["range", "validiff", "d8"]
 
 
@@ -141,8 +152,30 @@ def judge_stage(ctx, stage, label, impl, status, neg):
         for bit in OBSERVED:
             if a["pre." + bit] == [1] and a["spec." + bit] != [1]:
                 ctx.count(f"i:observed:{stage}-loses-{bit}")
+        hyp = all(v == [1] for k, v in a.items() if k.startswith("hyp."))
+        if not hyp:
+            ctx.count(f"i:hyp:{stage}-hypothesis-of-the-links-theorem-false")
+        elif a["pre." + LINKS] == [1]:
+            ctx.count("i:thm:links-hypotheses-hold")
+            if a["spec." + LINKS] != [1]:
+                fs.append({"kind": "spec", "what": f"{label}: the coarse network is well formed (valid iff outlet, links "
+                                                   f"in range and 8-neighbour, outlet pixels valid) before and no longer "
+                                                   f"after the stage", "impl": impl})
+        # optimize_rivlen_sync / minimize_error_outlets_distinct: `streams` in step with the outlet array before => in step
+        # and outlets pairwise distinct after (evaluated on the implementation's arrays), for every pit_out_of_cell
+        if "sync.pre" in a:
+            if a["sync.pre"] == [1]:
+                ctx.count("i:thm:sync-hypotheses-hold")
+                if a["sync.post"] != [1]:
+                    fs.append({"kind": "spec", "what": f"{label}: streams is in step with the outlet pixels before the "
+                                                       f"stage; afterwards it is not, or two coarse cells share an outlet "
+                                                       f"pixel", "impl": impl})
+            else:
+                ctx.count(f"i:hyp:{stage}-streams-not-in-step-before")
         if a["fuel"] != [0]:
-            fs.append({"kind": "model", "what": f"{label}: Lean model ran out of fuel"})
+            fs.append({"kind": "model", "what": f"{label}: Lean model ran out of fuel"
+                                                + (" although the hypotheses of the totality theorem hold"
+                                                   if hyp and a["pre." + LINKS] == [1] else "")})
             return fs
         if "sort.bad" in a and a["sort.bad"] != [0] and not JIT:
             fs.append({"kind": "model", "what": f"{label}: a recorded np.argsort result is not a sorting permutation "
@@ -258,7 +291,7 @@ def run_network(ctx, ds, shape, s, upa_kind, upa_arr, upa_int, idt, rounds=3):
             ctx.count("i:feature:short-cells")
         ctx.add(desc, [("c09ihu_rivlen", {**env, **par, "cds": cz(cds1), "out": oz(out1), "short": ints(short),
                                           "valid": [int(bool(x)) for x in valid.tolist()], "streams": streams0,
-                                          "impl.cds": cz(cds2), "impl.out": oz(out2)})],
+                                          "impl.cds": cz(cds2), "impl.out": oz(out2), "impl.streams": ints(streams)})],
                 judge_stage(ctx, "rivlen", "ihu_optimize_rivlen", impl, st, neg), nontrivial=changed)
         if st != "ok":
             return
@@ -287,7 +320,7 @@ def run_network(ctx, ds, shape, s, upa_kind, upa_arr, upa_int, idt, rounds=3):
             ctx.count("i:feature:erroneous-cells")
         ctx.add(desc, [("c09ihu_minerr", {**env, **par, "cds": cz(cds2), "out": oz(out2), "fix": ints(fix1),
                                           "streams": streams1, "poc": poc, **sorts_args(log),
-                                          "impl.cds": cz(cds3), "impl.out": oz(out3)})],
+                                          "impl.cds": cz(cds3), "impl.out": oz(out3), "impl.streams": ints(sview)})],
                 judge_stage(ctx, "minerr" if poc else "minerr0", "ihu_minimize_error", impl, st, neg), nontrivial=changed)
         if st != "ok" or fix1.size == 0:
             break
@@ -316,8 +349,25 @@ def run_network(ctx, ds, shape, s, upa_kind, upa_arr, upa_int, idt, rounds=3):
             fs = []
             if neg:
                 fs.append({"kind": "spec", "what": "upscale.ihu: an array is indexed with the missing value (-1)"})
+            # ihu_model_total / ihu_links (Props/C09_ihuTotal.lean): hypotheses evaluated on the inputs, conclusion on the
+            # implementation's output
+            hyp = all(v == [1] for k, v in a.items() if k.startswith("hyp."))
+            if hyp:
+                ctx.count("i:thm:ihu_links-hypotheses-hold")
+                if a.get("spec.linksok") != [1]:
+                    fs.append({"kind": "spec", "what": "upscale.ihu: the returned coarse network is not well formed (valid "
+                                                       "iff outlet, links in range and 8-neighbour, outlet pixels valid)",
+                               "impl": impl})
+                # ihu_outlets_distinct (needs FineWF only): for every pit_out_of_cell
+                if a.get("spec.distinct") != [1]:
+                    fs.append({"kind": "spec", "what": "upscale.ihu: two coarse cells report the same outlet pixel",
+                               "impl": impl})
+            else:
+                ctx.count("i:hyp:ihu-hypothesis-false:" + ",".join(sorted(k for k, v in a.items()
+                                                                         if k.startswith("hyp.") and v != [1])))
             if a["fuel"] != [0]:
-                return fs + [{"kind": "model", "what": "ihu: Lean model ran out of fuel"}]
+                return fs + [{"kind": "model", "what": "ihu: Lean model ran out of fuel"
+                              + (" although the hypotheses of ihu_model_total hold" if hyp else "")}]
             if not JIT and (a["sort.bad"] != [0] or a["sort.left"] != [0]):
                 fs.append({"kind": "model", "what": "ihu: recorded np.argsort results do not match the model's sort calls"})
             if JIT and a["sort.bad"] != [0]:
@@ -328,8 +378,9 @@ def run_network(ctx, ds, shape, s, upa_kind, upa_arr, upa_int, idt, rounds=3):
                                "model": a.get("model." + k)})
             return fs
         ctx.count("i:op:ihu")
+        extra = {"impl.cds": impl["cds"], "impl.out": impl["out"]} if st == "ok" else {}
         ctx.add(desc, [("c09ihu_ihu", {**env, "ea": ea, "niter": niter, "opt_rivlen": int(opt), "min_error": int(me),
-                                       "poc": poc, **sorts_args(log)})], judge_i, nontrivial=True)
+                                       "poc": poc, **sorts_args(log), **extra})], judge_i, nontrivial=True)
 
 
 def _stage_relocate(ctx, U, bdesc, env, fix, cds, out, idxs_ds, upa_flat, shape, shape1, s, mv, n, n1, state):
